@@ -191,8 +191,15 @@ func run(c *runner.Ctx) {
 		depth = 4
 	}
 	defaultMode := c.Mode == "default"
+	// direct<k>: the library's own LRU(k) handed to SetStructTypeCache as it is (no wrapper in between), so whatever
+	// the library attaches to a cache of its own type is in play; set once per process, never replaced
+	directCap := 0
+	fmt.Sscanf(c.Mode, "direct%d", &directCap)
+	persistent := defaultMode || directCap > 0 // one cache instance for the whole process: sequences chain
 	var d *deleg
-	if !defaultMode {
+	if directCap > 0 {
+		valid.SetStructTypeCache(valid.NewLRU(directCap))
+	} else if !defaultMode {
 		d = &deleg{inner: missCache{}}
 		valid.SetStructTypeCache(d)
 	}
@@ -222,22 +229,25 @@ func run(c *runner.Ctx) {
 			if n > 600 {
 				n = 600
 			}
-			fillers(n, defaultMode)
+			fillers(n, persistent)
 		}},
 	}
 	// churn-r: r evictions before the sequence starts, for every residue of the LRU's removal counter relative to its
 	// map-rebuild threshold (2*capacity+2) - so the rebuild falls on every position of the next d calls
 	churn := func(r int) start {
-		return start{fmt.Sprintf("churn-%d", r), func(cf cfg) { fillers(cf.cap+r, defaultMode) }}
+		return start{fmt.Sprintf("churn-%d", r), func(cf cfg) { fillers(cf.cap+r, persistent) }}
 	}
 	runCfgs := cfgs
 	if defaultMode {
 		runCfgs = []cfg{{"package-default", nil, 512}}
 		depth = 3
+	} else if directCap > 0 {
+		runCfgs = []cfg{{fmt.Sprintf("own-LRU(%d)-passed-directly", directCap), nil, directCap}}
+		depth = 3
 	}
 	for _, cf := range runCfgs {
 		sts := starts
-		if !defaultMode && strings.HasPrefix(cf.name, "LRU(") && cf.cap >= 1 && cf.cap <= 8 {
+		if !defaultMode && (strings.HasPrefix(cf.name, "LRU(") || directCap > 0) && cf.cap >= 1 && cf.cap <= 8 {
 			for r := 1; r <= 2*cf.cap+3; r++ {
 				sts = append(sts, churn(r))
 			}
@@ -264,7 +274,7 @@ func run(c *runner.Ctx) {
 				if !c.Take() {
 					return
 				}
-				if !defaultMode {
+				if !persistent {
 					d.inner = cf.mk()
 				}
 				var pan bool
@@ -329,7 +339,7 @@ func run(c *runner.Ctx) {
 			})
 		}
 	}
-	if !defaultMode {
+	if !persistent {
 		spuriousMisses(c, d, all, expect, 3)
 		lateRegistration(c, d)
 		sharedRuleMap(c, d)
@@ -498,9 +508,9 @@ func main() {
 		Technique: "explicit enumeration of all call histories up to a depth x cache configurations x start states on the real code vs pure-function model (cross-configuration differential)",
 		Rule: "calls = 4 types (nested, time.Time fields, a pair of mutually recursive types) x tag names {a,b} (different rules per tag on the same fields; the value violates the a-rules on one field and the b-rules on another) x {tag rules, per-call override of the shared field}; " +
 			"all sequences of length d (3 quick, 4 thorough) from 3 start states (cold, warmed under the other tag / with overrides, warmed then flushed by capacity+1 filler types) on 8 cache configurations switched in-process, plus, for the bounded LRUs of capacity 1,2,3,8, the start states churn-r (r = 1..2*capacity+3 evictions before the sequence, and 1024..1027 for the default-size LRU(512): every position of the LRU's internal map rebuild relative to the next d calls) " +
-			"and on the untouched package default (separate worker set); and every depth-3 sequence on LRU(1), LRU(2), LRU(512), sync.Map with one (thorough: one or two) of its cache loads answered with a miss although the entry is present (the answer a concurrent eviction produces); one rule-map object edited in place between successive calls, and the history (validate, register a global function for a name the type uses, validate) on every configuration; every call compared with walk(type, tag, override, value); states = (configuration, per-type last tag) ; non-trivial = a type re-validated under the other tag",
+			"and on the untouched package default and on the library's own LRU(1) / LRU(2) handed to SetStructTypeCache directly (separate worker sets, one cache instance per process so sequences chain); and every depth-3 sequence on LRU(1), LRU(2), LRU(512), sync.Map with one (thorough: one or two) of its cache loads answered with a miss although the entry is present (the answer a concurrent eviction produces); one rule-map object edited in place between successive calls, and the history (validate, register a global function for a name the type uses, validate) on every configuration; every call compared with walk(type, tag, override, value); states = (configuration, per-type last tag) ; non-trivial = a type re-validated under the other tag",
 		Assumptions: []string{"walk model internal/walk", "the global cache is replaced through the public SetStructTypeCache only"},
 		Run:         run,
-		Modes:       []runner.Mode{{Name: "inproc"}, {Name: "default", Workers: 8}},
+		Modes:       []runner.Mode{{Name: "inproc"}, {Name: "default", Workers: 8}, {Name: "direct1", Workers: 3}, {Name: "direct2", Workers: 3}},
 	})
 }
